@@ -244,6 +244,8 @@ def family_basic(tier='quick', seed=0, dead_ends=False):
             st = list(range(n))
             acts = {s: tuple(rnd.sample(['u', 'v'], rnd.choice([1, 2]))) for s in st}
             supp = {(s, a): tuple(sorted(rnd.sample(st, rnd.choice([1, 2]) if n > 1 else 1))) for s in st for a in acts[s]}
+            for a in acts[st[-1]]:
+                supp[(st[-1], a)] = (st[-1],)     # well-formed: the absorbing state only leads to listed states (the other case is finding F14)
             F.append(Skel('rand%d-%d' % (seed, k), st, acts, supp, absorbing=[st[-1]], init=[0]))
     return F
 
